@@ -218,9 +218,10 @@ def handleWire (line : String) : String :=
       let c : Wire.Cfg := { items := items.filterMap id, args := args, ret := ret, pkgFuncs := pkg }
       let fuel := 4 * (c.items.length + 4)
       let w := Wire.wireEval c fuel c.ret
+      let complete := Wire.V.noBot w && Wire.V.noMissing w
       match Wire.migrate c with
-      | none => "W migrate=refused"
-      | some ks => s!"W migrate=ok equal={Wire.V.beq (Wire.kEval ks fuel c.ret) w}"
+      | none => s!"W migrate=refused faithful={Wire.faithful c} complete={complete}"
+      | some ks => s!"W migrate=ok equal={Wire.V.beq (Wire.kEval ks fuel c.ret) w} faithful={Wire.faithful c} complete={complete}"
 
 def handle (line : String) : String :=
   if line.startsWith "D " then handleDecl (line.drop 2).toString
